@@ -113,7 +113,8 @@ func (this *Symbols) ListStringLitSymbols() []string {
 func (this *Symbols) ListTerminals() []string {
 	terminals := make([]string, 0, 16)
 	for _, sym := range this.typeMap {
-		if this.IsTerminal(sym) {
+		// "empty" is the keyword of an empty alternative, not a terminal: it gets no token number
+		if this.IsTerminal(sym) && sym != "empty" {
 			terminals = append(terminals, sym)
 		}
 	}
